@@ -127,8 +127,8 @@ MCModeFiles == {%s}
 ====
 ''' % (',\n  '.join(tt), ', '.join(modes))
     mc = mcmod(tree_tla)
-    # the (directory, command) pairs that are replayed: every third directory of the family (which third depends on the seed)
-    step = 3
+    # the (directory, command) pairs that are replayed: every fourth (quick) / third (thorough) directory of the family, chosen by the seed
+    step = ctx.pick(4, 3)
     off = ctx.seed % step
     mc_pairs = mcmod(tree_tla[off::step])
 
@@ -188,7 +188,7 @@ MCModeFiles == {%s}
     ctx.sample({'kind': 'behaviour', 'cmds': scenarios[npairs]['cmds'], 'modeFile': scenarios[npairs]['init']['modeFile']})
 
     # ---- 4. the real binary ------------------------------------------------------------------
-    recs, rc, out = ctx.run_harness('./internal/verifh/c19', 'TestVerifC19', inp={'scenarios': scenarios, 'random': ctx.pick(1200, 12000), 'today': TODAY}, timeout=2400)
+    recs, rc, out = ctx.run_harness('./internal/verifh/c19', 'TestVerifC19', inp={'scenarios': scenarios, 'random': ctx.pick(900, 12000), 'today': TODAY}, timeout=2400)
     if not [x for x in recs if x.get('kind') == 'summary']:
         raise Infra('C19 harness wrote no summary:\n' + out[-3000:])
     for x in recs:
